@@ -190,10 +190,10 @@ def genPtsImporter (filepath : List PLine) (imageorigin : Bool) : Except Exc (Li
           let xs0 := xs1
           let ys0 := ys1
           if (PyX.truthy imageorigin) then
-            let points0 := (hstackMinus1 ys0 xs0)
+            let points0 := (hstackCols [(colMinus1 ys0), (colMinus1 xs0)])
             .ok (points0)
           else
-            let points0 := (hstackMinus1 xs0 ys0)
+            let points0 := (hstackCols [(colMinus1 xs0), (colMinus1 ys0)])
             .ok (points0)
 
 def genLjsonImporter (table : List (Nat × String)) (filepath : Json) : Except Exc String :=
